@@ -94,8 +94,16 @@ def oracle(cases, mlines, ilines):
     return out
 
 
+def corpus_cases():
+    """every operation (the three time setters included) on every kind of target, through every kind of altroot"""
+    cases = hist.matrix_cases("c07", ["alt_mem", "alt_phys", "alt_alt", "alt_ovl"])
+    for c in cases:
+        c.first_watch = {}
+    return cases
+
+
 P = histprop.HistProp(
-    "C07", CONFIGS, typed=False, project=project, want_logs=True, quick_cases=10, thorough_cases=120, nops=(8, 16),
+    "C07", CONFIGS, typed=False, corpus_cases=corpus_cases, project=project, want_logs=True, quick_cases=10, thorough_cases=120, nops=(8, 16),
     oracle=oracle, after_prepop=after_prepop, finish=finish, hostile=0.45, allow_big=False,
     rule=("untyped histories on an altroot rooted at depth 0..3 of a memory, physical or overlay filesystem and on an altroot "
           "of an altroot, 45% of the path arguments spelled with './', leading '/', 'x/../' or '..' prefixes plus explicit "
